@@ -485,6 +485,14 @@ def run_check(pid, tier, seed, only_part=None):
         if k.get("property") == pid and k.get("status", "open") == "open":
             n = knownhits.get(k["id"], [k, 0])[1]
             print("KNOWN-FINDING: property=%s %s %s (hit %d times in this run)" % (pid, k["id"], k.get("what", ""), n))
+    if replays:
+        # real violations are reported even if some other case tripped over the harness
+        for sig, path, detail in replays:
+            print("VIOLATION property=%s replay=%s" % (pid, path))
+            print("  signature: %s\n  detail: %s" % (sig, detail))
+        for h in d["harness_errors"][:3]:
+            print("HARNESS-ERROR (in addition) part=%s\n%s" % (h["part"], h["error"]))
+        return 1
     if fatal or d["harness_errors"]:
         for f in fatal:
             print("HARNESS-ERROR part=%s shard=%s\n%s" % (f.get("part"), f.get("shard"), f.get("fatal")))
@@ -498,11 +506,6 @@ def run_check(pid, tier, seed, only_part=None):
     if distinct < 2 or d["evaluations"] < 1:
         print("HARNESS-ERROR: fewer than 2 distinct non-trivial cases (%d)" % distinct)
         return 2
-    if replays:
-        for sig, path, detail in replays:
-            print("VIOLATION property=%s replay=%s" % (pid, path))
-            print("  signature: %s\n  detail: %s" % (sig, detail))
-        return 1
     return 0
 
 
